@@ -12,7 +12,7 @@ def run(ctx):
                          "CadenceInject.tla; 2 geometries, plain and ordered cadences; distinct = distinct (geometry, behaviour)")
     ctx.assume("start times are whole multiples of dt; time axes compared at 4 ulp of the shifted magnitude; injected data at "
                "the geometry-scaled tolerance of C01")
-    res = tlc.run(MODULE, "CadenceInject_MC.cfg", ctx.outdir, workers=8, coverage=True)
+    res = tlc.run(MODULE, tlc.cfg_with("CadenceInject_MC.cfg", {"Small": "TRUE" if ctx.quick() else "FALSE"}, ctx.outdir), ctx.outdir, workers=8, coverage=True, timeout=3000)
     ctx.add_tlc(res, "CadenceInject_MC", "M")
     ctx.tlc_violation(res, MODULE, "CadenceInject_MC")
     for a in ("Begin", "Shift", "Inject", "Unshift", "Finish"):
